@@ -87,6 +87,20 @@ def dimOf [BEq α] : Dims α → α → Option α
   | .single dz, _ => some dz
   | .table rows, t => rows.lookup t
 
+/-- the dimension the STATEMENT speaks of for a particle of tomogram `t` ("per-tomogram or single dimension
+table" covering the list's tomograms): defined only when dimensions are given and — for a table — the
+tomogram has a row and all its rows agree on z. A call without dimensions, a table that lacks the
+particle's tomogram, or a table that gives it two different z sizes is OUTSIDE the quantifier of the
+property: `dimOf`/`flipP` still model what the code does there (for the correspondence run), but the
+specification (`specOp`, `checkFlip`) says nothing. -/
+def specDim [BEq α] : Dims α → α → Option α
+  | .none, _ => none
+  | .single dz, _ => some dz
+  | .table rows, t =>
+    match rows.lookup t with
+    | none => none
+    | some dz => if rows.all (fun r => !(r.1 == t) || r.2 == dz) then some dz else none
+
 /-- `flip_handedness`: theta changes sign; where a dimension is known, z ↦ (dim_z + 1) − z and
 shift_z changes sign -/
 def flipP [BEq α] [Neg α] [Add α] [Sub α] [IntCast α] (d : Dims α) (p : Particle α) : Particle α :=
@@ -118,22 +132,35 @@ structure Pose (α : Type) where
   pos : V3 α
   R : M3 α
   tomo : α
-deriving Repr
+deriving Repr, DecidableEq
 
 def absPose (S : Svc α) (p : Particle α) : Pose α := ⟨pos p, orient S p, p.tomo_id⟩
 
-/-- the statement of the property, operation by operation -/
-def specOp : Op α → Pose α → Pose α
-  | .update, P => P
-  | .scale f, P => { P with pos := V3.smul f P.pos }
-  | .shift v, P => { P with pos := P.pos + P.R.apply v }
-  | .rotate q, P => { P with R := P.R * q }
-  | .flip d, P =>
-    match dimOf d P.tomo with
-    | none => { P with R := Mz * P.R * Mz }
-    | some dz => { P with pos := ⟨P.pos.x, P.pos.y, dz + 1 - P.pos.z⟩, R := Mz * P.R * Mz }
+/-- is the operation's argument inside the quantifier of the property for a particle of tomogram `t`?
+(only `flip_handedness` can fall outside: no dimensions / tomogram not covered / ambiguous rows) -/
+def covers : Op α → α → Bool
+  | .flip d, t => (specDim d t).isSome
+  | _, _ => true
 
-def specRun (ops : List (Op α)) (P : Pose α) : Pose α := ops.foldl (fun P op => specOp op P) P
+/-- the statement of the property, operation by operation; `none` = the statement says nothing about
+this particle under this call (outside its quantifier, see `specDim`) -/
+def specOp : Op α → Pose α → Option (Pose α)
+  | .update, P => some P
+  | .scale f, P => some { P with pos := V3.smul f P.pos }
+  | .shift v, P => some { P with pos := P.pos + P.R.apply v }
+  | .rotate q, P => some { P with R := P.R * q }
+  | .flip d, P =>
+    match specDim d P.tomo with
+    | none => none
+    | some dz => some { P with pos := ⟨P.pos.x, P.pos.y, dz + 1 - P.pos.z⟩, R := Mz * P.R * Mz }
+
+/-- the statement folded over a history (`none` as soon as one call is outside the quantifier) -/
+def specRun : List (Op α) → Pose α → Option (Pose α)
+  | [], P => some P
+  | op :: ops, P =>
+    match specOp op P with
+    | none => none
+    | some P' => specRun ops P'
 
 /-! ### the recorded assumptions on the numeric services, as predicates (used as hypotheses) -/
 
@@ -179,11 +206,19 @@ def checkUpdate (b a : Particle Rat) : Bool :=
 /-- `scale_coordinates(f)`: complete position multiplied by f -/
 def checkScale (f : Rat) (b a : Particle Rat) : Bool := pos a == V3.smul f (pos b)
 
-/-- `flip_handedness(dims)`: complete z mirrored to dim_z + 1 − z (x, y untouched), theta negated -/
+/-- `flip_handedness(dims)`, position clause only: for a particle whose tomogram the dimensions cover,
+complete z mirrored to dim_z + 1 − z (x, y, tomogram untouched); nothing is demanded otherwise -/
+def checkFlipPos (d : Dims Rat) (b a : Particle Rat) : Bool :=
+  match specDim d b.tomo_id with
+  | none => true
+  | some dz => a.tomo_id == b.tomo_id && pos a == (⟨(pos b).x, (pos b).y, dz + 1 - (pos b).z⟩ : V3 Rat)
+
+/-- `flip_handedness(dims)`, sufficient check of the whole clause for a covered particle: position mirrored
+and the stored angles are exactly (phi, −theta, psi) (an implementation that stores another triple of the
+same mirrored orientation fails this check but not the property: the harness then compares matrices) -/
 def checkFlip (d : Dims Rat) (b a : Particle Rat) : Bool :=
-  a.theta == -b.theta && a.phi == b.phi && a.psi == b.psi && a.tomo_id == b.tomo_id &&
-  match dimOf d b.tomo_id with
-  | none => pos a == pos b
-  | some dz => pos a == (⟨(pos b).x, (pos b).y, dz + 1 - (pos b).z⟩ : V3 Rat)
+  match specDim d b.tomo_id with
+  | none => true
+  | some _ => a.theta == -b.theta && a.phi == b.phi && a.psi == b.psi && checkFlipPos d b a
 
 end CryoCat.C05
